@@ -213,3 +213,15 @@ def _c03_post(reports_by_run, pid):
 
 if "C03" in PROPS:
     PROPS["C03"]["post"] = _c03_post
+
+# thorough-tier sanitizer / interpreter layers (same monitors, small slices of the workload)
+import sanstage  # noqa: E402
+
+PROPS["C03"]["runs"].append(dict(kind="custom", fn=sanstage.miri_stage, bin="mon_state", sub="c03", config="miri", thorough_only=True,
+                                 shards=16, scale=0.0015))
+PROPS["C04"]["runs"].append(dict(kind="custom", fn=sanstage.miri_stage, bin="mon", sub="c04", config="miri", thorough_only=True,
+                                 shards=16, scale=0.002))
+PROPS["C11"]["runs"].append(dict(kind="custom", fn=sanstage.miri_stage, bin="mon", sub="c11", config="miri", thorough_only=True,
+                                 shards=16, scale=0.02, extra=["--max-len", "5"]))
+PROPS["C17"]["runs"].append(dict(kind="custom", fn=sanstage.tsan_stage, bin="mon_dbg", sub="c17", config="tsan", thorough_only=True,
+                                 shards=8, scale=0.17))
